@@ -73,6 +73,14 @@ if __name__ == '__main__':
         rep.case('cli', 'cli-include-empty')
         if want is not None and text != want: rep.dev('cli-include-empty', dict(kind='cli', args=['--include-species']), 'nothing was filtered (%d bytes written)' % len(text or ''), 'the table of the file with every entry deleted (%d bytes)' % len(want))
         else: rep.ok()
+        # include sets given in another order than the file's: the surviving entries keep the FILE's relative order
+        r2 = random.Random(pl.get('seed', 0) + 17); done = 0
+        while done < 6:
+            kind = ['eam', 'fs', 'pair'][done % 3]; sd = r2.randint(0, 10 ** 6)
+            sp0 = (pair_model(random.Random(sd)) if kind == 'pair' else eam_model(random.Random(sd), fs=(kind == 'fs')))[0]
+            if len(sp0) < 2: continue
+            c = dict(kind=kind, seed=sd, S=list(reversed(sp0)), exclude=False, other_view=None)
+            rep.case(kind, c); check_case(rep, c, 'include-reversed-%d' % done); done += 1
         for i in range(pl.get('n', 40)):
             c = gen_case(rng); rep.case(c['kind'], c); check_case(rep, c, 'seeded-%d' % i)
     if pl.get('mode') != 'replay' and ERRS[0] * 2 > ERRS[1]:
